@@ -24,6 +24,12 @@ def hand_cases():
         add('Leaf', b'{"s":"a\\nb\\u00e9\\ud83d\\ude00"}', fl); add('Leaf', b'{"s":"a\\qb"}', fl); add('Leaf', b'{"s":"abc', fl); add('Leaf', b'{"s":null}', fl)
         add('Leaf', b'{"n":-9223372036854775808}', fl); add('Leaf', b'{"n":9223372036854775807}', fl); add('Leaf', b'{"n":9223372036854775808}', fl)
         add('Leaf', b'{"n":-9223372036854775809}', fl); add('Leaf', b'{"c":127}', fl); add('Leaf', b'{"c":128}', fl); add('Leaf', b'{"c":-128}', fl); add('Leaf', b'{"c":-129}', fl)
+        # digit runs denoting values >= 2^64 (overflow test of /repo HEAD: x > (UINT64_MAX - d) / 10), compared like everything else
+        add('Leaf', b'{"n":18446744073709551615}', fl); add('Leaf', b'{"n":18446744073709551616}', fl); add('Leaf', b'{"n":30000000000000000000}', fl)
+        add('Leaf', b'{"n":-18446744073709551616}', fl); add('Leaf', b'{"n":99999999999999999999999}', fl); add('Leaf', b'{"n":000000000000000000000007}', fl)
+        add('Leaf', b'{"c":18446744073709551617}', fl); add('Leaf', b'{"n":184467440737095516150,"s":"x"}', fl)
+        add('Req', b'{"a":"x","b":[18446744073709551616],"c":{}}', fl); add('Req', b'{"a":"x","b":[1,30000000000000000000,2],"c":{}}', fl)
+        add('Req', b'{"a":"x","b":[1],"c":{"n":18446744073709551625}}', fl); add('Req', b'{"a":"x","b":[1],"c":{},"d":-99999999999999999999}', fl)
         add('Leaf', b'{"n":1.5}', fl); add('Leaf', b'{"n":1e3}', fl); add('Leaf', b'{"n":-}', fl); add('Leaf', b'{"n":}', fl); add('Leaf', b'{"n":', fl); add('Leaf', b'{"n"', fl)
         add('Leaf', b'{"n":1', fl); add('Leaf', b'{"n":12', fl); add('Leaf', b'{"s":"', fl); add('Leaf', b'{"s":"\\', fl); add('Leaf', b'{"c":"Red"}', fl); add('Leaf', b'{"c":Red}', fl)
         add('Leaf', b'{"n":true}', fl); add('Leaf', b'{"n":"1"}', fl); add('Leaf', b'{"n":[1]}', fl); add('Leaf', b'{"n":{}}', fl); add('Leaf', b'{"s":1}', fl); add('Leaf', b'[]', fl); add('Leaf', b'', fl)
